@@ -53,10 +53,11 @@ def hasIndex : Path → Bool
   | .index _ :: _ => true
   | .field _ :: rest => hasIndex rest
 
-/-- a removal at `w` can take an element out of an array through which `r` passes by index
-    (`w` and `r` agree up to a position where both hold an index segment) -/
+/-- a removal at `w` can take an element out of an array through which `r` passes by a later (or,
+    when compaction drops the emptied element, the same) index: `w` and `r` agree up to a position
+    where `w` holds an index not above the one `r` holds there -/
 def shiftsPast : Path → Path → Bool
-  | .index _ :: _, .index _ :: _ => true
+  | .index i :: _, .index j :: _ => decide (i ≤ j)
   | s :: w, t :: r => decide (s = t) && shiftsPast w r
   | _, _ => false
 
